@@ -584,6 +584,7 @@ def r9_desugar_iterators(srcs, stats):
       b  E.iter().fold(INIT, |A, X| BODY)          =>  ({ let mut A = INIT; for X in E.iter() { A = BODY; } A })
       d  E.iter().filter(|&N| COND).count()        =>  ({ let mut r9_c: usize = 0; for N in E.iter() { if COND { r9_c += 1; } } r9_c })
       e  E.iter_mut().for_each(|X| *X OP= RHS)     =>  for r9_k in 0..E.len() { E[r9_k] OP= RHS; }          (statement position)
+      g  E.retain(|X| COND);                       =>  { let mut r9_k = 0; while r9_k < E.len() { if ({ let X = &E[r9_k]; COND }) { r9_k += 1; } else { E.remove(r9_k); } } }
       f  E.iter().position(|X| BODY)               =>  ({ let mut r9_p: Option<usize> = None; for r9_k in 0..E.len() { let X = &E[r9_k];
                                                           if r9_p.is_none() && (BODY) { r9_p = Some(r9_k); } } r9_p })
     Test modules are left alone.  The bounded Kani harnesses of the thorough tier run the ORIGINAL adapter code against the same facts."""
@@ -637,6 +638,18 @@ def r9_desugar_iterators(srcs, stats):
             m2 = re.match(r'\s*;', src[pc:])
             if not mm or not m2 or mm.group(1) != mm.group(2) or re.search(r'\b%s\b' % re.escape(mm.group(1)), mm.group(4)): continue
             edits.append((x.start(), pc + m2.end(), 'for r9_k in 0..%s.len() { %s[r9_k] %s= %s; }' % (E, E, mm.group(3), mm.group(4)) + nl(x.start(), pc + m2.end()), 'R9e_for_each'))
+        # g: retain statement -- "operates in place, visiting each element exactly once in the original order"
+        for x in re.finditer(PLACE + r'\.retain\s*\(', src):
+            if not live(x.start()): continue
+            E = x.group(1)
+            po = x.end() - 1; pc = _close_paren(src, mask, po)
+            if pc is None: continue
+            mm = re.match(r'\s*\|\s*(\w+)\s*\|\s*(.+?)\s*$', src[po + 1:pc - 1], re.S)
+            m2 = re.match(r'\s*;', src[pc:])
+            if not mm or not m2 or '|' in mm.group(2) or '{' in mm.group(2): continue
+            X, COND = mm.groups()
+            edits.append((x.start(), pc + m2.end(), '{ let mut r9_k: usize = 0; while r9_k < %s.len() { if ({ let %s = &%s[r9_k]; %s }) { r9_k += 1; } else { %s.remove(r9_k); } } }'
+                          % (E, X, E, one_line(COND, rsitems.scan_tokens(COND), 0, len(COND)), E) + nl(x.start(), pc + m2.end()), 'R9g_retain'))
         edits.sort()
         if any(edits[i][1] > edits[i + 1][0] for i in range(len(edits) - 1)):
             out[m_] = src; continue     # nested adapters: leave the module as it is (its functions stay outside Verus)
